@@ -199,6 +199,33 @@ def same_events(ctx, rule, instance, fi, got, want, what, skip_args=(), guards=F
     return True
 
 
+def _vacuous(val, e, _memo={}):
+    """An event that mentions a pseudo-element of a domain D does not happen in a scenario where D is empty
+    (the valuation makes `len(D) == 0` true): a loop over an empty sequence has no iterations."""
+    from .termflow import Poly, g_cmp
+
+    doms = getattr(e, "_elem_doms", None)
+    if doms is None:
+        doms = set()
+        vals = list(e.args) + list(e.kwargs.values()) + ([e.recv] if e.recv is not None else [])
+        for v in vals:
+            try:
+                for a in atoms_of(v, tag="elem"):
+                    if len(a) == 3 and isinstance(a[1], tuple):
+                        doms.add(a[1])
+            except Exception:  # noqa: BLE001
+                pass
+        e._elem_doms = doms
+    for d in doms:
+        try:
+            dk = d if (isinstance(d, tuple) and d and d[0] == "poly") else Poly.atom(d).key()
+            if val.truth(g_cmp("==", Poly.atom(("call", "len", (dk,), ())), Poly.const(0))):
+                return True
+        except Exception:  # noqa: BLE001
+            continue
+    return False
+
+
 def _same_sequences(got, want, skip_args=(), trials=48):
     """In every guard scenario (a congruent random truth assignment of all guards), the sequences of active
     events agree by callee, receiver and argument images."""
@@ -225,7 +252,7 @@ def _same_sequences(got, want, skip_args=(), trials=48):
                             on = all(val.truth(g) for g in e.full_guards)
                         except (ValueError, OverflowError, ZeroDivisionError):
                             on = True
-                        if on:
+                        if on and not _vacuous(val, e):
                             out.append(sig(val, e))
                     return out
 
@@ -304,7 +331,7 @@ def same_effects(ctx, rule, instance, fi, got, want, what, ordered=False, trials
                         on = all(val.truth(g) for g in e.full_guards)
                     except (ValueError, OverflowError, ZeroDivisionError):
                         on = True
-                    if on:
+                    if on and not _vacuous(val, e):
                         out.append((sig(val, e), e))
                 return out
 
